@@ -1011,14 +1011,13 @@ class NodeFor:
             + (
                 self.identifiers[0]
                 if len(self.identifiers) == 1
-                else "[" + self.identifiers + "]"
+                else "[" + ", ".join(self.identifiers) + "]"
             )
             + " in "
-            + self.what
-            + " "
-            + self.expression
+            + (self.what + " " if self.what else "")
+            + repr(self.expression)
             + " do "
-            + self.block
+            + repr(self.block)
             + ")"
         )
 
